@@ -87,7 +87,35 @@ def forbidden_scan():
     return bad
 
 
+RACEFACTS_PKGS = ["priority", "v2/priority", "v2/priority/simple", "join", "v2/join", "v2/join/unite", "v2/limit"]
+
+
+def regenerate_facts():
+    """coq/theories/Facts.v is a translation of the current /repo sources (tools/racefacts): regenerated on every run, rewritten
+    only when it changed so that `make` stays a no-op on an unchanged tree."""
+    os.makedirs(WORK, exist_ok=True)
+    tool = os.path.join(WORK, "racefacts")
+    src = os.path.join(VERIF, "tools", "racefacts")
+    if not os.path.exists(tool) or os.path.getmtime(tool) < os.path.getmtime(os.path.join(src, "main.go")):
+        rc, out = sh(["go", "build", "-o", tool, "."], cwd=src, env=GOENV, timeout=600)
+        if rc != 0:
+            return False, "racefacts does not build: " + out[-1500:]
+    tmp = os.path.join(WORK, "Facts.v.%d" % os.getpid())
+    rc, out = sh([tool, REPO, tmp] + RACEFACTS_PKGS, timeout=300)
+    if rc != 0:
+        return False, "racefacts failed on the current sources: " + out[-1500:]
+    dst = os.path.join(COQ, "theories", "Facts.v")
+    new = open(tmp).read()
+    os.remove(tmp)
+    if not os.path.exists(dst) or open(dst).read() != new:
+        open(dst, "w").write(new)
+    return True, ""
+
+
 def coq_make(clean=False, timeout=3000):
+    ok, msg = regenerate_facts()
+    if not ok:
+        return False, msg
     if clean:
         sh("make clean >/dev/null 2>&1; rm -f Makefile Makefile.conf .*.d; find . -name '*.vo*' -delete -o -name '*.glob' -delete -o -name '.*.aux' -delete",
            cwd=COQ)
@@ -269,9 +297,14 @@ def build_harness(version, race=False):
 
 
 class ImplResult:
-    __slots__ = ("verdict", "vals", "raw")
+    __slots__ = ("verdict", "vals", "raw", "goroutines")
 
     def __init__(self, verdict, vals, raw=""):
+        vals = list(vals)
+        self.goroutines = None          # library goroutines still alive after the scenario (reported by the harness)
+        if len(vals) >= 2 and vals[-2] == "goroutines":
+            self.goroutines = int(vals[-1])
+            vals = vals[:-2]
         self.verdict, self.vals, self.raw = verdict, vals, raw
 
     def to_json(self):
